@@ -100,6 +100,9 @@ def same_value(eng, x, y):
         if x.eq(y):
             return z3.BoolVal(False)
         return x != y
+    from engine.core import ZArr
+    if isinstance(x, ZArr) and isinstance(y, ZArr):
+        return z3.BoolVal(False) if x.term.eq(y.term) else x.term != y.term
     if isinstance(x, SliceV) and isinstance(y, SliceV):
         same = x.obj == y.obj and x.path == y.path and concrete_int(x.off) == concrete_int(y.off) and concrete_int(x.len) == concrete_int(y.len)
         return z3.BoolVal(not same)
